@@ -17,21 +17,24 @@
 
    Known finding F8c.  On the unchanged tree the judgement fails on a recorded class: a constant c
    equal to a 0-ary predicate is printed c__s, and some other constant d of the problem has
-   c < d <= c__s (`a1`, `aB`, `a_` next to `a`; d = a__s: the merge).  The regular op excuses a
-   false link / a merge only if it is THAT finding: (1) on this problem the implementation's map is
-   exactly the recorded one (M.ChainClass.printed_symbol: the only place where `__s` is known),
-   (2) the link is true of the printed names (the recorded defect: sorted by printed name), and
-   (3) the problem lies in the proved class, rename_monotoneb = false (Proofs/ChainMonotone.v:
-   outside the class the recorded behaviour cannot produce a false link; an excuse outside it is
-   reported as `excused-outside-the-proved-class`).  Any other renaming (`s__c__`, `c_s`, ..) or
-   ordering is judged without excuse.  sem_chain_orig_all never excuses (replay of F8c).
+   c < d <= c__s (`a1`, `aB`, `a_` next to `a`; d = a__s: the merge).  The class is decidable on the
+   INPUT alone: M.ChainClass.rename_monotoneb (extracted from Coq; the only place where `__s` is
+   known) is false exactly there, and Proofs/ChainMonotone.chain_true_monotone proves that outside
+   the class the recorded behaviour yields a chain that is true for the original constants.  The
+   regular op sem_chain_orig drops the two findings the class is about (a link false for the
+   originals, a merge) on inputs inside the class - whatever the implementation printed - and
+   reports everything else; so every failing input it reports lies OUTSIDE the recorded class (on
+   such an input the unchanged tree is proved correct: the report cannot be an instance of F8c).
+   sem_chain_orig_all never excuses (replay oracle of the recorded inputs of F8c).
 
    sem_chain_task (task level): input (<external task> (ok "text" ..)) = chain_external.  The
    user's constants are the `sy` leaves of the task.  In each text: a declared symbolic constant
    whose name is a user constant stands for that constant; if exactly one user constant c is also a
    declared 0-ary predicate of the text (so it cannot keep its name), c is not declared, and
    exactly one declared constant n is not a user constant, then n stands for c.  Otherwise the
-   problem is not judged.  Same truth / coverage conditions, same excuse (n = recorded name). *)
+   problem is not judged.  Same truth / coverage conditions; the class F8c is decided on the user
+   constants that occur in the text (rename_monotoneb of a problem with the predicate c/0 and those
+   constants). *)
 open Sexp
 open Conv
 
@@ -80,11 +83,12 @@ let closure (cs : string list) (links : (string * string) list) : (string * stri
   done;
   ignore cs; !rel
 
+(* [excusable]: the finding is of a kind the class F8c is about (false for the originals / merge) *)
 type finding = { what : Sexp.t; excusable : bool }
 
 (* judge one emitted problem: [consts] its constants (printed names), [stand_for r] the originals
    printed as r, [links] its ordering axioms *)
-let judge_part ~(excuse_link : string -> string -> bool) (consts : string list) (stand_for : string -> string list)
+let judge_part (consts : string list) (stand_for : string -> string list)
     (links : (string * string * string) list) (count : int ref) : finding list =
   let out = ref [] in
   let add ?(excusable = false) what = out := !out @ [ { what; excusable } ] in
@@ -95,7 +99,7 @@ let judge_part ~(excuse_link : string -> string -> bool) (consts : string list) 
         List.iter (fun s1 -> List.iter (fun s2 ->
             incr count;
             if not (byte_lt s1 s2) then
-              add ~excusable:(excuse_link x y)
+              add ~excusable:true
                 (L [ A "symbol-order-axiom-false-for-the-original-constants"; S nm; L [ A "printed"; S x; S y ];
                      L [ A "stand-for"; S s1; S s2 ];
                      L [ A "standard-order"; S (if s1 = s2 then s1 ^ " = " ^ s2 else s2 ^ " < " ^ s1) ] ])) (stand_for y))
@@ -131,29 +135,27 @@ let sem_chain_orig_gen ~(strict : bool) (e : Sexp.t) : Sexp.t =
          | None ->
            let ren o = List.hd (images o) in
            let stand_for r = List.filter (fun o -> ren o = r) originals in
-           (* the recorded behaviour: used ONLY to recognise the known finding F8c *)
+           (* the recorded class F8c, decided on the INPUT (the only use of the recorded naming) *)
            let raw = problem p in
            let pre = M.Problem.add_annotated_formulas (M.Problem.with_name raw.M.Problem.pb_name) raw.M.Problem.pb_formulas in
-           let as_recorded = List.for_all (fun o -> ren o = str_of (M.ChainClass.printed_symbol pre (cl_of_string o))) originals in
            let in_class = not (M.ChainClass.rename_monotoneb pre) in
-           let excusing = (not strict) && as_recorded in
            let count = ref 0 in
            let excused = ref 0 in
            let result = ref None in
            let report i (fs : finding list) links =
              List.iter (fun f ->
-                 if f.excusable && in_class then incr excused
+                 if f.excusable && in_class && not strict then incr excused
                  else if !result = None then
-                   result := Some (L ([ A "cex"; L [ A "problem"; A (string_of_int i) ];
-                                        (if f.excusable then L [ A "excused-outside-the-proved-class"; f.what ] else f.what);
-                                        of_links links; of_map (List.map (fun o -> (o, ren o)) originals) ]))) fs in
+                   result := Some (L ([ A "cex"; L [ A "problem"; A (string_of_int i) ]; f.what;
+                                        of_links links; of_map (List.map (fun o -> (o, ren o)) originals);
+                                        L [ A "input-in-recorded-class-F8c"; A (string_of_bool in_class) ] ]))) fs in
            (* two distinct constants merged into one printed name *)
            let rec opairs = function [] -> [] | x :: r -> List.map (fun y -> (x, y)) r @ opairs r in
            report (-1)
              (List.filter_map (fun (o1, o2) ->
                   if ren o1 = ren o2 then
                     Some { what = L [ A "two-distinct-constants-printed-under-one-name"; S o1; S o2; L [ A "printed"; S (ren o1) ] ];
-                           excusable = excusing }
+                           excusable = true }
                   else None) (opairs originals)) [];
            List.iteri (fun i part ->
                match part with
@@ -167,7 +169,7 @@ let sem_chain_orig_gen ~(strict : bool) (e : Sexp.t) : Sexp.t =
                     | Error _ -> ()   (* an unreadable text is C09's business (sem_problem_wt) *)
                     | Ok tp ->
                       let links = links_of_text tp (List.map (fun (n, _, _) -> n) pf) in
-                      report i (judge_part ~excuse_link:(fun x y -> excusing && byte_lt x y) consts stand_for links count) links)
+                      report i (judge_part consts stand_for links count) links)
                | _ -> bad "sem_chain_orig: part") parts;
            match !result with
            | Some r -> r
@@ -222,14 +224,25 @@ let sem_chain_task_gen ~(strict : bool) (e : Sexp.t) : Sexp.t =
                      let n = str_of a.M.Tff.n_name in
                      if String.length n >= 8 && String.sub n 0 8 = "formula_" then Some n else None) tp.M.Tff.tp_formulas in
                  let links = links_of_text tp own in
-                 let recorded_name = match news, clash with [ n ], [ c ] -> n = c ^ "__s" | _ -> true in
-                 let fs = judge_part ~excuse_link:(fun x y -> (not strict) && recorded_name && byte_lt x y) decl_consts stand_for links count in
+                 (* the recorded class, decided on the user constants that occur in this text *)
+                 let occurring = dedup (List.concat_map stand_for decl_consts) in
+                 let in_class = match clash with
+                   | [ c ] when List.mem c occurring ->
+                     let sym o = M.Fol.GSym (M.Fol.SSym (cl_of_string o)) in
+                     let pf f = { M.Problem.pf_name = cl_of_string "f"; pf_role = M.Problem.PAxiom; pf_formula = M.Fol.FAtomic f } in
+                     let pre = { M.Problem.pb_name = cl_of_string "p";
+                                 pb_formulas = pf (M.Fol.AAtom (cl_of_string c, []))
+                                               :: List.map (fun o -> pf (M.Fol.AAtom (cl_of_string "holds__", [ sym o ]))) occurring } in
+                     not (M.ChainClass.rename_monotoneb pre)
+                   | _ -> false in
+                 let fs = judge_part decl_consts stand_for links count in
                  List.iter (fun f ->
-                     if f.excusable then incr excused
+                     if f.excusable && in_class && not strict then incr excused
                      else if !result = None then
                        result := Some (L [ A "cex"; L [ A "problem"; A (string_of_int i) ]; f.what; of_links links;
                                            L (A "user-constants" :: List.map (fun o -> S o) users);
-                                           L (A "declared-constants" :: List.map (fun o -> S o) decl_consts) ])) fs)
+                                           L (A "declared-constants" :: List.map (fun o -> S o) decl_consts);
+                                           L [ A "input-in-recorded-class-F8c"; A (string_of_bool in_class) ] ])) fs)
           | _ -> bad "sem_chain_task: text") texts;
       match !result with
       | Some r -> r
